@@ -80,6 +80,42 @@ func raceSuites(prefix string, tier string, panicsAreDiagnostics bool, mk func(h
 	return ss
 }
 
+// monRaceViol reports what race() judged right after its window.
+type monRaceViol struct {
+	baseMon
+	h *hist
+}
+
+func (m *monRaceViol) Quiescent(td *TD, p Pending) *Viol { return m.h.raceViol }
+func (m *monRaceViol) End(td *TD) *Viol                  { return m.h.raceViol }
+
+// c15RaceSuites: a deadline extension requested at the same time as the asked player's answer.
+func c15RaceSuites(tier string) []*Suite {
+	// the lost update needs two preemptions (extension reads, hand writes, extension writes)
+	bound := 2
+	ns := []int{2}
+	if tier == "thorough" {
+		ns = []int{2, 3}
+	}
+	var ss []*Suite
+	for _, n := range ns {
+		n := n
+		ids := []string{"a", "b", "c"}[:n]
+		var init []seatSpec
+		for i, id := range ids {
+			init = append(init, seatSpec{id: id, seat: i, chips: 9, joined: true})
+		}
+		tc := defaultCfg(4)
+		tc.ActionTime = 10
+		hc := &histCfg{name: fmt.Sprintf("race-extend/n%d", n), tcfg: tc, init: init, hands: 1, lines: []string{"checkdown"}, decks: []string{"asc"}, finish: []string{"all"}, newStack: 3, advance: 3,
+			race: &raceCfg{nth: 0, op: "extend"}}
+		ss = append(ss, &Suite{Name: "c15/" + hc.name, Bound: bound, Weight: 20, Run: func(prefix []int) *vrt.Exec {
+			return runHist(prefix, hc, vrt.Config{FineAll: true}, func(h *hist) []Monitor { return []Monitor{&monRaceViol{h: h}} })
+		}})
+	}
+	return ss
+}
+
 // monInvariant: the C03 bookkeeping invariant at every quiescent point.
 type monInvariant struct{ baseMon }
 
